@@ -43,6 +43,7 @@ SimStep(r) ==
     \/ PostLock(r) /\ Rec("PostLock", r)
     \/ Fetch(r) /\ Rec("Fetch", r)
     \/ Check(r) /\ Rec("Check", r)
+    \/ Abandon(r) /\ Rec("Abandon", r)
     \/ Store(r) /\ Rec("Store", r)
     \/ StoreDone(r) /\ Rec("StoreDone", r)
     \/ Unlock(r) /\ Rec("Unlock", r)
